@@ -12,7 +12,8 @@ EXPLANATION = (
     "(d) F13: the goodbye on an interface is control-dependent on get_status(if_index) == Announced; (e) one "
     "UnregisterResend at now + 120 per non-empty packet, only on the first run, with a timer (F6); (f) the entry is "
     "removed before the reply and the resend handler does nothing for a missing service.  Decides these mechanisms, not "
-    "what later queries observe over histories.")
+    "what later queries observe over histories."
+    " (g) Purges of the rerun queue keep UnregisterResend and every other kind. (h) add_interface does not replace an existing DnsRegistry.")
 UNDECIDED = ["what later queries observe over histories", "timing of the repeat on the wire"]
 
 
@@ -199,6 +200,9 @@ def clause_f(ctx, P):
 
 
 def run(ctx, P):
+    from . import r2
+    r2.purges_keep_other_commands(ctx, P, "C09g")
+    r2.interface_rules(ctx, P, "C09h", want=("registry",))
     clause_a(ctx, P)
     clause_b(ctx, P)
     clause_c(ctx, P)
